@@ -4,6 +4,7 @@
 (* OCI layout directories) through the monitor CopyProp.  One event = one   *)
 (* monitor step; every invariant is evaluated after every event.            *)
 (* Event kinds: reset (header: pairing, options), man / edge / referrer /   *)
+(* alias (names of objects in the referrer target repository) /             *)
 (* dtag (facts about the source, parsed independently from its raw bytes),  *)
 (* init (raw target store before the copy), req (a request served by a      *)
 (* model registry; wr=1: it wrote to the target and carries the raw target  *)
@@ -22,6 +23,7 @@ TNext ==
      \/ Ev.ev = "edge" /\ PEdge([p |-> Ev.p, c |-> Ev.c, role |-> Ev.role, psel |-> Ev.psel, hosted |-> Ev.hosted])
      \/ Ev.ev = "referrer" /\ PReferrer([r |-> Ev.r, s |-> Ev.s, match |-> Ev.match])
      \/ Ev.ev = "dtag" /\ PDTag([t |-> Ev.t, on |-> Ev.on, to |-> Ev.to, fb |-> Ev.fb])
+     \/ Ev.ev = "alias" /\ PAlias(Ev.q, Ev.n, Ev.pfx)
      \/ Ev.ev = "init" /\ PInitStore(Store(Ev))
      \/ Ev.ev = "req" /\ Ev.wr = 0 /\ PReq(Ev.side, Ev.class, Ev.n, Ev.st, Ev.data)
      \/ Ev.ev = "req" /\ Ev.wr = 1 /\
